@@ -732,6 +732,16 @@ func (s *sender) handleRcvdSegment(seg *segment) {
 		// 更新下一个未确认的序列号
 		s.sndUna = ack
 
+		// Keep the NewReno recover marker within reach of sndUna. It is only
+		// moved by loss events, so after more than 2^31 bytes without one it
+		// would compare as lying ahead of every ACK and three duplicate ACKs
+		// would no longer start a fast retransmit. A marker below sndUna-1
+		// and one at sndUna-1 admit exactly the same ACKs.
+		// recover 标记只在丢包事件时更新，这里保证它不会落后 sndUna 超过半个序号空间
+		if s.fr.last.LessThan(s.sndUna - 1) {
+			s.fr.last = s.sndUna - 1
+		}
+
 		ackLeft := acked
 		originalOutstanding := s.outstanding
 		// 从发送链表中删除已经确认的数据，发送窗口的滑动。
